@@ -327,6 +327,8 @@ def check_c03(ix, prop="C03"):
             op = d["op"]
             if d["how"] == "abort":
                 continue
+            if d["how"] == "raise" and d.get("inner"):
+                continue  # raised by code between create_callback and result(), not by the operation
             if d["how"] == "raise":
                 # StepInterruptedError from ctx.step is the final error of an interrupted at-most-once step whose strategy
                 # declined a retry: like every final error it may be raised only after the FAIL record is accepted
